@@ -10,6 +10,7 @@ from ..core import AnalysisError, FUNC, call_attr, calls_in, const, dotted, is_c
 from .c01 import field_rules
 
 EXPLANATION = [
+    'C18.division-guard: in the codec modules a divisor (or modulus) read from the packet being parsed is tested on the way to the division: a count of 0, which the matching serialiser writes for an empty list, cannot raise ZeroDivisionError.',
     'C18.decorator-order: every PDU class above HCI that is a dataclass and is registered by a decorator is made a dataclass first, so the registration decorator builds its field table from the declared fields.',
     'C18.avdtp-fragments: fragmentation of an AVDTP signalling message (packet count = ceil(len / fragment size), header sizes, slices) as decided by C19.avdtp-single: a message whose length is an exact multiple of the fragment size announces the right number of packets.',
     'C18.defined-at-return: in every function of the codec modules a local that is returned has been assigned on every path to that return (definite-assignment walk; names bound in loops, with-items, handlers excluded): no parser falls through a `match`/`if` chain into returning the variable of another arm.',
